@@ -132,3 +132,9 @@ pub fn ascii_lossy(v: &[u8]) -> std::borrow::Cow<'_, str> {
     while i < v.len() { kani::assume(v[i] < 0x80); i += 1; }
     std::borrow::Cow::Borrowed(unsafe { std::str::from_utf8_unchecked(v) })
 }
+
+/// `noexec` stub kind: the executor's reaction to a command is not part of the question (C08 checkpoint leg asks about
+/// stamps in the replication state only)
+pub fn noop_execute(_ex: &mut redis_sim::redis::CommandExecutor, _cmd: &redis_sim::redis::Command) -> redis_sim::redis::RespValue {
+    redis_sim::redis::RespValue::Integer(0)
+}
